@@ -257,6 +257,102 @@ def cli_sample(c, repo, seed, nrandom, total, quick):
     return bad
 
 
+def serve_requests(c, repo):
+    """`gobl serve`: every endpoint with missing / null / ill-typed bodies and payload members, and the bulk actions with the
+    same; the server answers every request and is still alive afterwards (a panic in a handler that is not recovered, or
+    in a bulk goroutine, takes the process down)."""
+    import socket, http.client, base64 as _b64, tempfile
+    gobl = os.path.join(BIN, "gobl")
+    src = os.path.join(repo, "examples", "es", "out", "invoice-es-es.json")
+    doc64 = _b64.b64encode(open(src, "rb").read()).decode() if os.path.exists(src) else "e30="
+    tmpd = tempfile.mkdtemp(prefix="c14serve", dir=WORK)
+    key = os.path.join(tmpd, "key.jwk")
+    subprocess.run([gobl, "keygen", key], stdout=subprocess.PIPE, stderr=subprocess.PIPE, env=GOENV)
+    s0 = socket.socket()
+    s0.bind(("127.0.0.1", 0))
+    port = s0.getsockname()[1]
+    s0.close()
+    args = [gobl, "serve", "-p", str(port)] + (["-k", key] if os.path.exists(key) else [])
+    log_ = open(os.path.join(tmpd, "serve.log"), "w")
+    proc = subprocess.Popen(args, stdout=log_, stderr=log_, env=GOENV)
+
+    def call(method, path, body, ctype="application/json"):
+        h = http.client.HTTPConnection("127.0.0.1", port, timeout=30)
+        h.request(method, path, body=body, headers={"Content-Type": ctype} if body is not None else {})
+        r = h.getresponse()
+        data = r.read()
+        h.close()
+        return r.status, data
+
+    try:
+        up = False
+        for _ in range(100):
+            time.sleep(0.05)
+            if proc.poll() is not None:
+                break
+            try:
+                if call("GET", "/", None)[0] == 200:
+                    up = True
+                    break
+            except OSError:
+                pass
+        if not up:
+            c.report("gobl serve did not come up", {"machinery": "serve"}, no_input=True)
+            return
+        payloads = [None, {}, {"data": doc64}, {"data": None}, {"data": ""}, {"data": "e30="}, {"data": 7}, {"data": [doc64]}, {"data": doc64, "privatekey": None},
+                    {"data": doc64, "privatekey": {}}, {"data": doc64, "publickey": None}, {"data": doc64, "publickey": {}}, {"data": doc64, "options": None},
+                    {"data": doc64, "options": "e30="}, {"data": doc64, "options": "bnVsbA=="}, {"data": doc64, "template": "e30="}, {"data": doc64, "template": None},
+                    {"data": doc64, "type": ""}, {"data": doc64, "envelop": "x"}, {"path": None}, {"path": ""}, {"path": "nosuch/schema"}, {"code": None}, {"code": ""},
+                    {"code": "ZZ"}, "x", 7, [], True]
+        sent = []
+        # single-request endpoints
+        for ep in ("/build", "/verify", "/key", "/", "/nosuch"):
+            for meth in ("POST", "GET"):
+                for pl in payloads[:20] + ["{", "", "null"]:
+                    body = pl if isinstance(pl, str) and pl in ("{", "", "null") else json.dumps(pl)
+                    sent.append((meth, ep, body))
+        # bulk: one stream per action so that a dying goroutine is attributed
+        for act in ("build", "validate", "sign", "verify", "correct", "replicate", "schema", "regime", "keygen", "ping", "sleep", "nosuch", ""):
+            lines = []
+            for i, pl in enumerate(payloads):
+                r = {"action": act, "req_id": "%s-%d" % (act, i)}
+                if pl is not None:
+                    r["payload"] = pl
+                lines.append(json.dumps(r))
+            sent.append(("POST", "/bulk", "\n".join(lines) + "\n"))
+        for meth, ep, body in sent:
+            c.count("serve-requests", 1, (meth, ep, body[:200]))
+            try:
+                st, data = call(meth, ep, body.encode())
+            except OSError as e:
+                alive = proc.poll() is None
+                tail = open(os.path.join(tmpd, "serve.log")).read()[-3000:]
+                m = re.search(r"^(github\.com/invopop/gobl[^\s(]*)\(", tail, re.M)
+                mm = re.search(r"^(panic: .*|fatal error: .*)$", tail, re.M)
+                c.report("gobl serve %s on %s %s (%r): %s in %s" % ("stops answering" if alive else "dies", meth, ep, e, mm.group(1) if mm else "no panic line",
+                                                                     m.group(1) if m else "?"),
+                         {"request": {"method": meth, "path": ep, "body": body[:4000]}, "server_log_tail": tail,
+                          "clause": "the operation returns a result or an error; it never panics, hangs or aborts the process"})
+                return
+            if ep == "/bulk" and st == 200:
+                outs_ = [json.loads(l) for l in data.decode("utf-8", "replace").splitlines() if l.strip().startswith("{")]
+                want = body.count("\n")
+                if not any(o.get("is_final") for o in outs_) or len([o for o in outs_ if not o.get("is_final")]) != want:
+                    c.report("gobl serve /bulk answers %d of %d requests (final marker: %s)" % (len([o for o in outs_ if not o.get("is_final")]), want,
+                                                                                               any(o.get("is_final") for o in outs_)),
+                             {"request": {"method": meth, "path": ep, "body": body[:4000]}, "response": data.decode("utf-8", "replace")[:3000]})
+        if proc.poll() is not None:
+            c.report("gobl serve exited (%s) after the request sweep" % proc.returncode, {"server_log_tail": open(os.path.join(tmpd, "serve.log")).read()[-3000:]})
+    finally:
+        try:
+            proc.kill()
+        except OSError:
+            pass
+        log_.close()
+        import shutil
+        shutil.rmtree(tmpd, ignore_errors=True)
+
+
 def judge_records(c, recs, where):
     seen = {}
     for r in recs:
@@ -319,6 +415,7 @@ def run(c):
     # model vs implementation on the cores that are callable from outside (header validation)
     tie_cores(c, quick)
     run_corpus(c)
+    serve_requests(c, REPO)
     seed = c.seed
     nrandom = 6000 if quick else 2000000
     t0 = time.time()
